@@ -700,3 +700,45 @@ def search_without_tables(env):
     scan_stacks(env)
     sweep(env, element_cases(env, E), "element_sweep")
     sweep(env, modifier_cases(env, E), "modifier_sweep")
+
+
+def replay(rec):
+    """re-run a recorded failing input on the current tree"""
+    import json
+    f = rec.get("failure")
+    if not f:
+        print(json.dumps(rec, ensure_ascii=False, indent=1)[:4000])
+        return 0
+    inp = f["input"]
+    V.import_repo()
+    namespace()
+    import vyxal.elements as E
+    if inp.get("kind") == "modifier":
+        print("modifier cases are replayed by ./check C09 (the program text is not recorded); recorded failure:")
+        print(f["what"])
+        return 1
+    key = inp["key"]
+    if key not in E.elements:
+        print(f"element {key!r} no longer exists")
+        return 0
+    args = _tup(inp["args"])
+    with contextlib.redirect_stdout(io.StringIO()):
+        a = run_once(E.elements[key][0], PREFIX_A, args)
+        b = run_once(E.elements[key][0], PREFIX_B, args)
+    print(f"element {key!r} template {E.elements[key][0]!r} arity {E.elements[key][1]} args {args}")
+    print(" over prefix A:", a)
+    print(" over prefix B:", b)
+    bad = a["viol"] or b["viol"] or (a["exc"], a["res"]) != (b["exc"], b["res"])
+    print("still failing" if bad else "no longer failing")
+    return 1 if bad else 0
+
+
+def _tup(x):
+    """json lists back to the tuple specs build() expects"""
+    if isinstance(x, list) and x and isinstance(x[0], str) and x[0] in ("int", "sint", "rat", "str", "list", "lazy"):
+        if x[0] in ("list", "lazy"):
+            return (x[0], [_tup(y) for y in x[1]])
+        return tuple(x)
+    if isinstance(x, list):
+        return [_tup(y) for y in x]
+    return x
